@@ -817,22 +817,39 @@ bus_client_policy_optimize (BusClientPolicy *policy)
       switch (rule->type)
         {
         case BUS_POLICY_RULE_SEND:
+          /* Only a rule that matches every message makes the preceding
+           * rules irrelevant: besides the header-field attributes, the
+           * broadcast, fd-count, requested_reply and eavesdrop modifiers
+           * must not restrict it either (see
+           * bus_client_policy_check_can_send()). */
           remove_preceding =
             rule->d.send.message_type == DBUS_MESSAGE_TYPE_INVALID &&
             rule->d.send.path == NULL &&
             rule->d.send.interface == NULL &&
             rule->d.send.member == NULL &&
             rule->d.send.error == NULL &&
-            rule->d.send.destination == NULL;
+            rule->d.send.destination == NULL &&
+            rule->d.send.broadcast == BUS_POLICY_TRISTATE_ANY &&
+            rule->d.send.min_fds == 0 &&
+            rule->d.send.max_fds >= DBUS_MAXIMUM_MESSAGE_UNIX_FDS &&
+            (rule->allow ?
+               (!rule->d.send.requested_reply || rule->d.send.eavesdrop) :
+               rule->d.send.requested_reply);
           break;
         case BUS_POLICY_RULE_RECEIVE:
+          /* Likewise, see bus_client_policy_check_can_receive() */
           remove_preceding =
             rule->d.receive.message_type == DBUS_MESSAGE_TYPE_INVALID &&
             rule->d.receive.path == NULL &&
             rule->d.receive.interface == NULL &&
             rule->d.receive.member == NULL &&
             rule->d.receive.error == NULL &&
-            rule->d.receive.origin == NULL;
+            rule->d.receive.origin == NULL &&
+            rule->d.receive.min_fds == 0 &&
+            rule->d.receive.max_fds >= DBUS_MAXIMUM_MESSAGE_UNIX_FDS &&
+            (rule->allow ?
+               rule->d.receive.eavesdrop :
+               (!rule->d.receive.eavesdrop && rule->d.receive.requested_reply));
           break;
         case BUS_POLICY_RULE_OWN:
           remove_preceding =
